@@ -422,14 +422,27 @@ def c15(rep, tier):
     es = sfacts.fn('exists_scanner')
     rep.analysed(es)
     okes = False
+    stackp = es['params'][0]
     for st in walk_stmts(es['body']):
-        if st['k'] == 'rangefor' and strip_casts(st['range']).get('dk') == 'param':
+        over_all = False
+        if st['k'] == 'rangefor' and strip_casts(st['range']).get('d') == stackp['d']:
+            over_all = True
+        if st['k'] == 'for' and st.get('init') and st['init']['k'] == 'decl' and st.get('c') is not None and st.get('inc') is not None:
+            iv = st['init']['vars'][0]
+            c = strip_casts(st['c'])
+            over_all = strip_casts(iv.get('init')).get('v') == 0 and c.get('k') == 'bin' and c['op'] in ('<', '!=') and is_call(strip_casts(c['r']), '::size') and \
+                strip_casts(strip_casts(c['r'])['obj']).get('d') == stackp['d'] and '++' in show(st['inc'])
+        if over_all:
             ifs = [x for x in walk_stmts(st['body']) if x['k'] == 'if']
             rets_in = [x for x in walk_stmts(st['body']) if x['k'] == 'return']
-            okes = len(ifs) == 1 and '==' in show(ifs[0]['c']) and len(rets_in) == 1 and strip_casts(rets_in[0]['e']).get('v') is True and \
-                not [x for x in walk_stmts(st['body']) if x['k'] in ('break',)]
+            okes = len(ifs) == 1 and ('==' in show(ifs[0]['c'])) and es['params'][1]['name'] in show(ifs[0]['c']) and len(rets_in) == 1 and \
+                strip_casts(rets_in[0]['e']).get('v') is True and not [x for x in walk_stmts(st['body']) if x['k'] in ('break',)]
+    anyof = [e for e in walk_all_exprs(es['body']) if e.get('k') == 'call' and (e.get('callee') or '') in ('std::any_of', 'std::find_if', 'std::ranges::any_of')]
     rets = [x for x in walk_stmts(es['body']) if x['k'] == 'return']
-    okes = okes and len(rets) == 2 and strip_casts(rets[-1]['e']).get('v') is False
+    if anyof and len(rets) == 1:
+        okes = 'begin()' in show(anyof[0]) and 'end()' in show(anyof[0])
+    else:
+        okes = okes and len(rets) == 2 and strip_casts(rets[-1]['e']).get('v') is False
     I4.check(okes, 'exists_scanner', 'compares the key with every element of the stack; false only after the whole stack', 'the recursion test does not inspect the whole stack', W % es['loc'][1])
     ev = err_pushes('RECURSIVE_INCLUDE')
     ok = len(ev) == 1 and guarded(g, ev[0], lambda c: is_call(c, 'exists_scanner'), True)
